@@ -269,3 +269,9 @@ def run(ctx):
     dflt = [n for n in walk_local(pr.node) if isinstance(n, ast.Assign) and src(n.targets[0]) == "default"]
     ctx.ob("C02.BUILD", pr, "without a default, missing fields come from today at midnight", len(dflt) == 1 and
            src(dflt[0].value).replace(" ", "") == "datetime.datetime.now().replace(hour=0,minute=0,second=0,microsecond=0)", construct="default default")
+
+    # ---------------------------------------------------------------- C02.ARGS
+    from ..rules_common import check_call_arguments
+    check_call_arguments(ctx, "C02.ARGS", "C02")
+
+
